@@ -19,6 +19,7 @@
 #include "bpemu.h"
 #include "errmsg.h"
 #include "strutil.h"
+#include "verif_hooks.h"
 
 #include <string.h>
 
@@ -204,7 +205,7 @@ static void CodeIFB(Word Negate) {
     if (!IfAsm) {
         IfExpr = 1;
     } else {
-        for (z = 1; z <= ArgCnt; z++) {
+        for (z = 1; z <= ArgCnt; z++) VERIF_LOOP(asmif_ifb) {
             if (strlen(ArgStr[z].str.p_str) > 0) {
                 Blank = False;
             }
@@ -343,7 +344,7 @@ static void CodeCASE(void) {
                         }
                     }
                     z++;
-                } while (!eq && (z <= ArgCnt));
+                } while (!eq && (z <= ArgCnt)) VERIF_LOOP(asmif_case);
                 as_tempres_free(&t);
             }
             IfAsm = (FirstIfSave->SaveIfAsm && eq && !FirstIfSave->CaseFound);
@@ -479,7 +480,7 @@ Integer SaveIFs(void) {
 void RestoreIFs(Integer Level) {
     PIfSave OldSave;
 
-    while (FirstIfSave && (FirstIfSave->NestLevel != Level)) {
+    while (FirstIfSave && (FirstIfSave->NestLevel != Level)) VERIF_LOOP(asmif_restore) {
         OldSave     = FirstIfSave;
         FirstIfSave = OldSave->Next;
         IfAsm       = OldSave->SaveIfAsm;
